@@ -75,7 +75,7 @@ fn c512_to(c: Compressor512) -> [u64; 8] {
     [x[0], x[1], x[2], x[3], y[0], y[1], y[2], y[3]]
 }
 
-#[cfg(not(feature = "no_simd"))]
+#[cfg(all(not(feature = "no_simd"), not(feature = "api_only")))]
 mod pb {
     use super::*;
     use ppv_lite86::x86_64::{AVX, AVX2, SSE2, SSE41, SSSE3};
@@ -134,7 +134,19 @@ mod pb {
     arms!(put512, Compressor512, u64x4, U128, u64);
 }
 
-#[cfg(feature = "no_simd")]
+#[cfg(feature = "api_only")]
+mod pb {
+    use super::*;
+    use digest::generic_array::typenum::{U128, U64};
+    pub fn put256(_b: &str, _st: &mut Compressor256, _block: &GenericArray<u8, U64>, _t: (u32, u32)) -> bool {
+        false
+    }
+    pub fn put512(_b: &str, _st: &mut Compressor512, _block: &GenericArray<u8, U128>, _t: (u64, u64)) -> bool {
+        false
+    }
+}
+
+#[cfg(all(feature = "no_simd", not(feature = "api_only")))]
 mod pb {
     use super::*;
     use digest::generic_array::typenum::{U128, U64};
